@@ -127,6 +127,7 @@ struct Kernel::Proc {
   ProcSpec spec;
   ProcResult res;
   int64_t sysno = 0;
+  int64_t file_writes = 0;
   bool doomed = false;
   ProcResult::End doom_kind = ProcResult::kCrashed;
   std::string doom_detail;
@@ -551,7 +552,14 @@ static ssize_t CookieWrite(void* cv, const char* buf, size_t n) {
   }
   size_t keep = n;
   bool torn = false, fail = false;
-  if (idx == p->spec.faults.torn_at) {
+  int64_t wno = p->file_writes++;
+  if (wno == p->spec.faults.crash_write_nth) {
+    Fired("crash");
+    g_k->Trace(Ev::kFault, 0, 0, "crash", c->path);
+    Doom(ProcResult::kCrashed, "crash before file write");
+    return (ssize_t)n;
+  }
+  if (idx == p->spec.faults.torn_at || wno == p->spec.faults.torn_write_nth) {
     keep = n ? p->spec.faults.torn_keep % n : 0;
     torn = true;
     Fired("torn_write");
